@@ -430,7 +430,7 @@ func main() {
 		n := len(corpus) + 2500
 		batchSize := 350
 		if h.Thorough() {
-			n = len(corpus) + 6000
+			n = len(corpus) + 20000
 			batchSize = 400
 		}
 		var indices []int
